@@ -164,6 +164,7 @@ func (b *builder) msgStream(c *Conn, hostile int, o gen.MsgOpts, maxMsgs int) {
 	switch {
 	case h >= hostile:
 		c.Msgs = msgs
+		c.Clean = true
 	default:
 		tmp := Conn{Msgs: msgs}
 		raw := tmp.Stream()
@@ -450,7 +451,9 @@ func (b *builder) buildC01() {
 func (b *builder) subConn(kind string, hostilePct int) Conn {
 	c := Conn{Cfg: b.subCfg(kind), Obj: -1}
 	txt := b.g.SubText(kind, c.Cfg.Flags, c.Cfg.HType)
+	c.Clean = true
 	if b.r.Intn(100) < hostilePct {
+		c.Clean = false
 		switch b.r.Intn(6) {
 		case 0:
 			txt = b.g.Noise(b.r.Range(0, 80))
